@@ -302,6 +302,11 @@ class PArr(object):
         return PArr(nb, self.order_tag)
 
     def pv_getitem(self, I, fr, idx):
+        if isinstance(idx, WhereIdx):
+            idx = idx.mask
+        if isinstance(idx, tuple) and idx and all(x is None or (isinstance(x, slice) and x == slice(None)) for x in idx) \
+                and sum(1 for x in idx if x is not None) <= 1:
+            return PArr(self.buf, self.order_tag)
         if idx is Ellipsis or (isinstance(idx, slice) and idx == slice(None)) or idx == ():
             return PArr(self.buf, self.order_tag)
         if isinstance(idx, PArr) and idx.buf.dtype.kind == 'bool':
@@ -309,6 +314,8 @@ class PArr(object):
         raise Unsupported('indexing a pointwise array with %r' % (idx,))
 
     def pv_setitem(self, I, fr, idx, val):
+        if isinstance(idx, WhereIdx):
+            idx = idx.mask
         if idx is Ellipsis or (isinstance(idx, slice) and idx == slice(None)) or idx == ():
             write(I, fr, self, val, assign=True)
             return
@@ -318,7 +325,7 @@ class PArr(object):
             if isinstance(val, MaskedView):
                 if val.mask.buf is not idx.buf and val.mask.buf.content is not idx.buf.content:
                     raise Unsupported('masked assignment from a different mask')
-                new = val.arr.buf.content
+                new = val.cont
             elif isinstance(val, PArr):
                 raise Unsupported('masked assignment from an unmasked array')
             else:
@@ -378,14 +385,91 @@ class PArr(object):
         raise Unsupported('iteration over a pointwise array')
 
 
-class MaskedView(object):
-    """a[mask] on the right-hand side: only usable in a[mask] = b[mask] / in-place updates"""
+class WhereIdx(object):
+    """np.where(cond) with one argument: the index set of a boolean mask (used only to index / assign)"""
 
-    def __init__(self, arr, mask):
+    def __init__(self, mask):
+        self.mask = mask
+
+
+class Table(object):
+    """a fixed N-d array (grid coordinate vector, grid values) read only through integer-array lookups from
+    pointwise (per evaluation point) index arrays: contents are a function of the index tuple"""
+
+    def __init__(self, name, shape, dtype=None, fn=None):
+        self.name, self.shape, self.dtype = name, tuple(shape), dtype or DT('float64')
+        self.fn = fn        # optional python function index terms -> scalar term (default: uninterpreted)
+
+    def value(self, idx):
+        if self.fn is not None:
+            return self.fn(tuple(idx))
+        f = core.uf(self.name, *([z3.IntSort()] * len(self.shape) + [z3.RealSort()]))
+
+        def toint(i):
+            t = S.lift(i).t
+            return t if z3.is_int(t) else z3.ToInt(t)
+        return S(f(*[toint(i) for i in idx]))
+
+    def pv_getattr(self, I, fr, name):
+        if name == 'shape':
+            return self.shape
+        if name == 'ndim':
+            return len(self.shape)
+        if name == 'size':
+            return _prod(self.shape)
+        if name == 'dtype':
+            return self.dtype
+        raise Unsupported('table attribute %s' % name)
+
+    def pv_len(self, I, fr):
+        return self.shape[0]
+
+    def pv_isinstance(self, I, cls):
+        return getattr(cls, 'name', None) == 'ndarray'
+
+    def pv_getitem(self, I, fr, idx):
+        if not isinstance(idx, tuple):
+            idx = (idx,)
+        if len(idx) != len(self.shape):
+            raise Unsupported('partial indexing of a table')
+        arrs = [x for x in idx if isinstance(x, PArr)]
+        if not arrs:
+            return self.value([x for x in idx])
+        conts = [x.buf.content if isinstance(x, PArr) else VConst(x) for x in idx]
+        return new_temp(VPw('lookup', (self,) + tuple(conts)), self.dtype, arrs[0].buf.shape, arrs[0].order_tag)
+
+
+class MaskedView(object):
+    """a[mask] on the right-hand side: usable in a[mask] = b[mask], a[mask] op= scalar / b[mask]"""
+
+    def __init__(self, arr, mask, cont=None):
         self.arr, self.mask = arr, mask
+        self.cont = cont if cont is not None else arr.buf.content
+
+    def _operand(self, I, other):
+        if isinstance(other, MaskedView):
+            if other.mask.buf is not self.mask.buf and other.mask.buf.content is not self.mask.buf.content:
+                raise Unsupported('arithmetic on differently masked selections')
+            return other.cont
+        if I.scalar_kind(other) is not None:
+            return VConst(other)
+        raise Unsupported('masked-view operand %r' % (other,))
 
     def pv_inplace(self, I, fr, name, other):
-        raise Unsupported('in-place on masked view')
+        op = name[3:-2]
+        return MaskedView(self.arr, self.mask, ufunc_content(op, [self.cont, self._operand(I, other)]))
+
+    def pv_binop(self, I, fr, name, other):
+        op = name.strip('_')
+        refl = op.startswith('r') and op[1:] in _ARITH
+        if refl:
+            op = op[1:]
+        if op not in _ARITH:
+            return ip.NOTIMPL
+        a, b = self.cont, self._operand(I, other)
+        if refl:
+            a, b = b, a
+        return MaskedView(self.arr, self.mask, ufunc_content(op, [a, b]))
 
 
 _ARITH = {'add', 'sub', 'mul', 'truediv', 'pow', 'floordiv', 'mod'}
@@ -586,7 +670,7 @@ class NpModule(object):
                   'asarray', 'array', 'can_cast', 'issubsctype', 'issubdtype', 'isrealobj', 'iscomplexobj', 'result_type',
                   'where', 'sum', 'max', 'min', 'dot', 'vdot', 'tensordot', 'array_equal', 'isfinite', 'isnan', 'any', 'all',
                   'float_power', 'copyto', 'full', 'full_like', 'promote_types', 'isclose', 'allclose', 'ndim', 'shape', 'size',
-                  'errstate', 'lib', 'swapaxes', 'arange', 'diff', 'hstack', 'atleast_1d', 'linspace', 'searchsorted', 'isinf'):
+                  'errstate', 'lib', 'swapaxes', 'arange', 'diff', 'hstack', 'atleast_1d', 'linspace', 'searchsorted', 'isinf', 'copy'):
             t[n] = ip.Builtin('np.' + n, getattr(self, 'f_' + n))
         t['linalg'] = I.PyModule('numpy.linalg', {'norm': ip.Builtin('np.linalg.norm', self.f_norm)})
 
@@ -723,7 +807,7 @@ class NpModule(object):
 
     def f_asarray(self, I, fr, args, kwargs):
         a = unwrap(I, fr, args[0])
-        if isinstance(a, carr.CArr):
+        if isinstance(a, (carr.CArr, Table)):
             return a
         if isinstance(a, PArr):
             dt = kwargs.get('dtype', args[1] if len(args) > 1 else None)
@@ -740,6 +824,10 @@ class NpModule(object):
             return carr.materialise(a) if kwargs.get('copy', True) else a
         if getattr(fr.st, 'closure_arrays', False) and isinstance(a, (list, tuple)) and all(I.scalar_kind(x) is not None for x in a):
             return carr.list_array(a)
+        if getattr(fr.st, 'point_shape', None) is not None and isinstance(a, (list, tuple)) and len(a) == 1 and I.scalar_kind(a[0]) is not None:
+            # np.array([c]): broadcasts against the per-point arrays
+            dt = as_dtype(kwargs['dtype']) if kwargs.get('dtype') is not None else DT('float64')
+            return new_temp(VConst(a[0]), dt, fr.st.point_shape)
         if isinstance(a, PArr):
             dt = kwargs.get('dtype')
             copy = kwargs.get('copy', True)
@@ -802,6 +890,8 @@ class NpModule(object):
         return self.f_result_type(I, fr, args, kwargs)
 
     def f_where(self, I, fr, args, kwargs):
+        if len(args) == 1 and isinstance(args[0], PArr):
+            return WhereIdx(args[0])
         if len(args) != 3:
             raise Unsupported('np.where with one argument')
         c, a, b = [unwrap(I, fr, x) for x in args]
@@ -970,6 +1060,14 @@ class NpModule(object):
             return 1
         raise Unsupported('np.size')
 
+    def f_copy(self, I, fr, args, kwargs):
+        a = args[0]
+        if isinstance(a, PArr):
+            return a._copy(fr)
+        if isinstance(a, carr.CArr):
+            return carr.materialise(a)
+        raise Unsupported('np.copy of %r' % (a,))
+
     def f_hstack(self, I, fr, args, kwargs):
         return carr.hstack(I, fr, args[0])
 
@@ -993,6 +1091,18 @@ class NpModule(object):
         """K6: side='left' on a strictly increasing array c of length n: the unique k in [0, n] with c[k-1] < v <= c[k].
         Strict monotonicity of c is a precondition that the caller's harness establishes (obligation elsewhere)."""
         c, v = args[0], args[1]
+        if isinstance(c, Table) and isinstance(v, PArr):
+            # per evaluation point: k with c[k-1] < v <= c[k]  (generic point)
+            n = c.shape[0]
+            name = fr.st.fresh('ss')
+            kv = VVar(name, 'int')
+            ki = fr.st.lower(kv)
+            x = fr.st.lower(v.buf.content)
+            fr.st.assume(s_and(ki >= 0, ki <= S.lift(n)))
+            fr.st.assume(S(z3.Implies((ki > 0).t, (c.value([ki - 1]) < x).t)))
+            fr.st.assume(S(z3.Implies((ki < S.lift(n)).t, (x <= c.value([ki])).t)))
+            fr.st.events.append(('searchsorted', c, ki))
+            return new_temp(kv, DT('int64'), v.buf.shape, v.order_tag)
         if not isinstance(c, carr.CArr) or c.ndim != 1 or kwargs.get('side', 'left') != 'left':
             raise Unsupported('np.searchsorted form')
         n = c.shape[0]
